@@ -18,6 +18,23 @@ PKG = "ipns"
 TEST = "TestVerifC26"
 
 
+def _mc(ctx, module, cfg, actions, **kw):
+    """tlc_mc with coverage in the thorough tier.  TLC prints interim coverage reports once a minute in which
+    actions not reached yet show 0; only the LAST report counts, so vlib's zero-detection is bypassed
+    (allow_zero) and redone here on the final figures."""
+    import re
+    cov = not ctx.quick
+    res = ctx.tlc_mc("IPNS", module, cfg, coverage=cov, allow_zero=tuple(actions), **kw)
+    if cov and res.get("ok"):
+        last = {}
+        for m in re.finditer(r"<(\w+) line \d+, col \d+ to line \d+, col \d+ of module \w+>: (\d+):(\d+)", res["out"]):
+            last[m.group(1)] = int(m.group(3))
+        dead = [a for a in actions if last.get(a, 0) == 0]
+        if dead:
+            ctx.broken("vacuous: actions never taken in %s: %s" % (cfg, dead))
+    return res
+
+
 def run(ctx):
     q = ctx.quick
     ctx.assumptions += ["inputs are represented by classes: 6 sequence numbers spanning uint64, 4 expiries (now+90 s .. year 9999, "
@@ -29,8 +46,8 @@ def run(ctx):
                        "non-trivial = accepted case (full pipeline and all accessors compared)")
     ctx.specdir("IPNS")
     with ThreadPoolExecutor(max_workers=3) as ex:
-        f_mc = ex.submit(ctx.tlc_mc, "IPNS", "IPNSRoundTrip.tla", "MCIPNSRoundTrip.cfg" if q else "MCIPNSRoundTripFull.cfg",
-                         timeout=2400, coverage=not q, workers=4 if q else 8)
+        f_mc = ex.submit(_mc, ctx, "IPNSRoundTrip.tla", "MCIPNSRoundTrip.cfg" if q else "MCIPNSRoundTripFull.cfg",
+                         ["CreateReject", "CreateOK", "Marshal", "Unmarshal", "Validate"], timeout=2400, workers=4 if q else 8)
         f_g = ex.submit(ctx.tlc_gen, "IPNS", "GenIPNSRoundTrip.tla", "GenIPNSRoundTrip.cfg" if q else "GenIPNSRoundTripFull.cfg", timeout=1800)
         binp = ctx.go_build(PKG, ["ipns/zz_verif_C26_test.go"])
         behs = f_g.result()
